@@ -55,7 +55,7 @@ RULE = ("directed: k in {0,1,2,3,5} open streams x GOAWAY id in {0, first, middl
 
 
 def gen(rng, tier):
-    n = {"quick": 350, "thorough": 30000, "search": 4000}[tier]
+    n = {"quick": 350, "thorough": 14000, "search": 4000}[tier]
     reps = {"quick": 2, "thorough": 20, "search": 8}[tier]
     for _ in range(reps):
         for ops, tag in g.directed_goaway(rng):
@@ -71,7 +71,7 @@ def gen(rng, tier):
         b.goaway_op()
         b.random_tail(rng.randrange(2, 25))
         yield Case("s_goaway", b.ops + ["end"], "rand-goaway-%d" % i)
-    for ops, tag in g.drain_cases(rng, {"quick": 250, "thorough": 12000, "search": 3000}[tier]):
+    for ops, tag in g.drain_cases(rng, {"quick": 250, "thorough": 6000, "search": 3000}[tier]):
         yield Case("s_drain", ops, tag)
     for i in range(n // 2):
         yield Case("s_goaway", g.random_case(rng, rng.randrange(5, 40)) + ["end"], "rand-%d" % i)
